@@ -109,12 +109,18 @@ impl Monitor for M {
         let n_types = if ctx.index % 8 == 0 {
             1 + (ctx.index / 8 % 3) as usize
         } else {
-            match ctx.rng.below(10) {
-                0 => 0,
-                1 => ctx.rng.range(10, 40) as usize,
+            match ctx.rng.below(40) {
+                0..=3 => 0,
+                4..=7 => ctx.rng.range(10, 40) as usize,
+                // lists longer than any 8-bit argument count
+                8 if !light => *ctx.rng.pick(&[255usize, 256, 257, 300, 511, 512, 513, 1000]),
                 _ => ctx.rng.range(1, 8) as usize,
             }
         };
+        let long_list = n_types >= 255;
+        if long_list {
+            ctx.obs("lists.255_or_more_types");
+        }
         let mut ts: Vec<TypeInfo> = vec![];
         for k in 0..n_types {
             let kind = if ctx.index % 8 == 0 && k == 0 {
@@ -142,8 +148,11 @@ impl Monitor for M {
             match t.kind {
                 TypeInfoKind::Bool => data.push(a as u8),
                 TypeInfoKind::StringType => {
-                    let n = ctx.rng.size(6, if light { 20 } else { 300 });
+                    let n = ctx.rng.size(6, if light { 20 } else if long_list { 12 } else { 300 });
                     let mut s: Vec<u8> = vec![];
+                    if ctx.rng.chance(1, 10) {
+                        s.extend_from_slice("\u{feff}".as_bytes()); // a byte-order mark is ordinary field content
+                    }
                     while s.len() < n {
                         if ctx.rng.chance(1, 12) {
                             s.push(0); // embedded NUL is legal in a packed string field
@@ -159,7 +168,7 @@ impl Monitor for M {
                     data.extend_from_slice(&s);
                 }
                 TypeInfoKind::Raw => {
-                    let n = ctx.rng.size(6, if light { 20 } else { 300 });
+                    let n = ctx.rng.size(6, if light { 20 } else if long_list { 12 } else { 300 });
                     put(&mut data, n as u128, 2, be);
                     let r = ctx.rng.bytes(n);
                     data.extend_from_slice(&r);
@@ -277,7 +286,7 @@ impl Monitor for M {
 
     fn describe(&self, ctx: &Ctx) -> J {
         super::describe(
-            "type lists of 0-40 supported kinds (bool, i/u 8..128, f32/f64, string, raw; any VARI/TRAI/coding flags; every kind systematically as the first element) x byte order; payload variants per list: exact encoding of random values by the reference encoder (strings with multi-byte text and embedded NULs, 1/12 with invalid UTF-8), exact + trailing bytes, every truncation (<= 64 bytes) or 8 sampled ones, one mutated byte, random bytes. Lists with fixed-point kinds (10 %) only under the no-panic clause. distinct = (byte order, first six kinds, variant class, outcome); non-trivial = non-empty type list",
+            "type lists of 0-40 (1 in 40: 255 / 256 / 257 / 300 / 511-513 / 1000) supported kinds (bool, i/u 8..128, f32/f64, string, raw; any VARI/TRAI/coding flags; every kind systematically as the first element) x byte order; payload variants per list: exact encoding of random values by the reference encoder (strings with multi-byte text and embedded NULs, 1/10 starting with U+FEFF, 1/12 with invalid UTF-8), exact + trailing bytes, every truncation (<= 64 bytes) or 8 sampled ones, one mutated byte, random bytes. Lists with fixed-point kinds (10 %) only under the no-panic clause. distinct = (byte order, first six kinds, variant class, outcome); non-trivial = non-empty type list",
             &["a packed string field is the exact UTF-8 of its length-prefixed bytes (embedded NULs kept), as the property states 'strings ... preceded by a 16-bit length'"],
             &[("ok.values_equal", super::scaled(ctx, 10000)), ("ok.trailing_ignored", super::scaled(ctx, 2000)), ("ok.refused_too_short", super::scaled(ctx, 10000)), ("ok.refused_invalid_utf8", super::scaled(ctx, 200))],
         )
